@@ -463,6 +463,38 @@ func TestCheck(t *testing.T) {
 			}
 		}
 	}
+	// pairs of header fields of the same PAR1 volume (quick: a reduced value grid, volumes 0 and 2)
+	{
+		fields := []struct {
+			n string
+			v uint64
+		}{{"count", 3}, {"listoff", 0x60}, {"listsize", 200}, {"dataoff", 296}, {"datasize", 10}, {"volnum", 1}}
+		grid := func(v uint64) []uint64 {
+			g := []uint64{0, 1, v - 1, v + 1, 1 << 22, 1 << 31, 1 << 32, 1 << 62, 1 << 63, 1<<64 - 1}
+			if cfg.Thorough() {
+				g = append(g, 2*v, 65536, 1<<61+1, 1<<63+1, 1<<64-56, 1<<40)
+			}
+			return g
+		}
+		vols := []int{0, 2}
+		if cfg.Thorough() {
+			vols = []int{0, 1, 2, 3}
+		}
+		for _, v := range vols {
+			for i, fa := range fields {
+				for _, fb := range fields[i+1:] {
+					for _, x := range grid(fa.v) {
+						for _, y := range grid(fb.v) {
+							idx++
+							if cfg.Mine(idx) {
+								do(Case{Format: "par1", Muts: []Mut{{fmt.Sprintf("h%d.%s", v, fa.n), x}, {fmt.Sprintf("h%d.%s", v, fb.n), y}}, DataPresent: idx % 3})
+							}
+						}
+					}
+				}
+			}
+		}
+	}
 	// consistent sets with one slice per file and a large declared slice size
 	for _, v := range []uint64{24, 32, 64, 4096, 1 << 20, 1 << 27, 1 << 31, 1 << 40, 1 << 47, 1<<62 + 4, 1<<63 - 4} {
 		for _, dp := range []int{0, 1, 2} {
